@@ -69,19 +69,21 @@ func (b *BufferBatchGetter) BatchGet(ctx context.Context, keys [][]byte, options
 	}
 	shrinkKeys := make([][]byte, 0, len(keys)-len(bufferValues))
 	for _, key := range keys {
-		val, ok := bufferValues[string(key)]
-		if !ok {
+		if _, ok := bufferValues[string(key)]; !ok {
 			shrinkKeys = append(shrinkKeys, key)
-			continue
-		}
-		// the deleted key should be removed from the result, and also no need to snapshot read it again.
-		if val.IsValueEmpty() {
-			delete(bufferValues, string(key))
 		}
 	}
 	storageValues, err := b.snapshot.BatchGet(ctx, shrinkKeys, options...)
 	if err != nil {
 		return nil, err
+	}
+	// the deleted keys should be removed from the result, and also no need to snapshot read them again.
+	// They are removed only after shrinkKeys is built, otherwise a deleted key that is listed twice in keys
+	// would be passed on to the snapshot at its second occurrence.
+	for key, val := range bufferValues {
+		if val.IsValueEmpty() {
+			delete(bufferValues, key)
+		}
 	}
 	for key, val := range storageValues {
 		bufferValues[key] = val
@@ -117,19 +119,21 @@ func (b *BufferSnapshotBatchGetter) BatchGet(ctx context.Context, keys [][]byte,
 	}
 	shrinkKeys := make([][]byte, 0, len(keys)-len(bufferValues))
 	for _, key := range keys {
-		val, ok := bufferValues[string(key)]
-		if !ok {
+		if _, ok := bufferValues[string(key)]; !ok {
 			shrinkKeys = append(shrinkKeys, key)
-			continue
-		}
-		// the deleted key should be removed from the result, and also no need to snapshot read it again.
-		if val.IsValueEmpty() {
-			delete(bufferValues, string(key))
 		}
 	}
 	storageValues, err := b.snapshot.BatchGet(ctx, shrinkKeys, options...)
 	if err != nil {
 		return nil, err
+	}
+	// the deleted keys should be removed from the result, and also no need to snapshot read them again.
+	// They are removed only after shrinkKeys is built, otherwise a deleted key that is listed twice in keys
+	// would be passed on to the snapshot at its second occurrence.
+	for key, val := range bufferValues {
+		if val.IsValueEmpty() {
+			delete(bufferValues, key)
+		}
 	}
 	for key, val := range storageValues {
 		bufferValues[key] = val
